@@ -251,7 +251,8 @@ def walk(items):
             yield from walk(it["items"])
 
 
-def gen_program(r, n=None, feats=None, lo=3, hi=14, types=None, p_rev=1.0, p_nodefault=0.0, p_shuffle=0.3, p_bare=0.03, p_choice_redef=0.08):
+def gen_program(r, n=None, feats=None, lo=3, hi=14, types=None, p_rev=1.0, p_nodefault=0.0, p_shuffle=0.3, p_bare=0.03, p_choice_redef=0.08,
+                p_select_member=0.0):
     """Returns a structured program dict."""
     if n is None:
         n = r.randint(lo, hi)
@@ -300,6 +301,11 @@ def gen_program(r, n=None, feats=None, lo=3, hi=14, types=None, p_rev=1.0, p_nod
         ln = [d for d in later if d["type"] != BOOL]
         if "select" in feats and lb and r.random() < 0.2:
             c["selects"].append([r.choice(lb)["name"], cond(r, lower) if r.random() < 0.4 else None])
+        if p_select_member and "select" in feats and r.random() < p_select_member:
+            # a choice symbol as the target of a select: legal, and without effect on the selection
+            lm = [d for d in configs if rank[d["name"]] > src_rank and d["name"] in member and block_end.get(d["name"]) != block_end.get(c["name"])]
+            if lm:
+                c["selects"].append([r.choice(lm)["name"], None])
         lbb = [d for d in lb if d["name"] in bare]
         if "imply" in feats and lb and r.random() < (0.6 if lbb else 0.15):
             c["implies"].append([r.choice(lbb or lb)["name"], cond(r, lower) if r.random() < 0.4 else None])
